@@ -913,6 +913,14 @@ impl<'a> Message<'a> {
         let mut seen_ending_attributes = [AttributeType::new(0); 3];
         let mut seen_ending_len = 0;
         while !data.is_empty() {
+            if data.len() < 4 {
+                // not even an attribute header is left: the sizes reported are those of the message
+                warn!("truncated attribute header at offset {data_offset}");
+                return Err(StunParseError::Truncated {
+                    expected: data_offset + 4,
+                    actual: data_offset + data.len(),
+                });
+            }
             let attr = RawAttribute::from_bytes(data).map_err(|e| {
                 warn!(
                     "failed to parse message attribute at offset {data_offset}: {:?}",
